@@ -10,6 +10,7 @@ PROP = "C16"
 PROP_FILES = ["Properties/C16.v", "Check/C16Check.v"]
 QUIRKS = ["q_import_trim_after_join", "q_import_dir_as_file", "q_import_cycle_hangs"]
 NSHARD = 6
+USE_STRING_LITERALS = False     # measured: no cheaper for Coq to elaborate than numeral lists (3.9 s vs 3.2 s per 150 cases)
 
 # ---------- layouts (relative to a per-shard base directory) ----------
 COMMON_FILES = {
@@ -75,6 +76,10 @@ def valid_name(rng):
             out += [""]
         out.append(seg)
     k = rng.random()
+    if k < 0.08:                                      # cleans to exactly ".." or "../..": names the parent directory itself
+        d = rng.choice([[], [], ["sub"], ["deep"], ["q", "."], ["sub", "deep"]])
+        up = [".."] * (len([x for x in d if x != "."]) + rng.choice([1, 1, 1, 2]))
+        return "/" + "/".join(d + up + rng.choice([[], [], [""], ["."]])) + rng.choice(WS)
     if k < 0.15:
         out = [".."] * rng.choice([1, 2]) + out       # rejected (relative) or absorbed (root form)
     elif k < 0.3:                                     # descend, then climb past the start: only Clean sees the ".." prefix
@@ -89,6 +94,10 @@ CORPUS_R = [   # (layout, site index, dot, name)  -- witnesses of the findings a
     ("mod", 6, True, "/"), ("nomod", 7, True, "/"), ("mod", 7, True, "/."), ("nomod", 7, True, "/deep/.."), ("mod", 6, False, "/"),
     ("mod", 0, True, "/sub/../../x"), ("mod", 0, True, "/sub/deep/../../../x"), ("mod", 2, True, "/deep/../../../x"),
     ("nomod", 2, True, "/q/../../x"), ("mod", 0, False, "/sub/../../x"), ("mod", 6, True, "/sub/.././../out/secret"),
+    # paths that clean to exactly ".." / "../..": Join gives the parent directory and fileValue appends ".arrai"
+    ("mod", 7, True, "/.."), ("nomod", 8, True, "/.."), ("mod", 6, True, "/.."), ("mod", 7, True, "/../"), ("mod", 7, True, "/deep/../.."),
+    ("mod", 7, True, "/.. "), ("mod", 7, True, "/deep/../../."), ("nomod", 7, True, "/.."), ("mod", 8, True, "/../.."), ("nomod", 9, True, "/.."),
+    ("mod", 2, True, "/.."), ("mod", 0, True, "/.."), ("mod", 7, True, "/../.."), ("nested", 7, True, "/.."), ("mod", 7, False, "/.."),
     ("mod", 0, True, "/x"), ("mod", 2, False, "/sub/y"), ("mod", 0, False, "/a../x"), ("mod", 0, False, "/.../x"),
     ("mod", 0, True, "/../x"), ("mod", 0, False, "/../../x"), ("nomod", 0, False, "/x"), ("mod", 0, True, "/x "),
     ("mod", 0, True, "/sub/../x"), ("mod", 0, True, "/sub//./y"), ("nested", 7, False, "/y"), ("moddir", 6, False, "/x"),
@@ -99,7 +108,7 @@ CORPUS_R = [   # (layout, site index, dot, name)  -- witnesses of the findings a
 
 
 def gen_res_cases(rng, tier):
-    n = 550 if tier == "quick" else 9000
+    n = 360 if tier == "quick" else 7000
     specs = list(CORPUS_R)
     lay_names = list(LAYOUTS)
     for _ in range(n):
@@ -157,6 +166,98 @@ def gen_graph_cases(rng, tier):
     return cases
 
 
+# ---------- import graphs with several spellings of one file (memory fs, module root possibly "/") ----------
+def pclean(p):
+    import posixpath
+    q = posixpath.normpath(p)
+    return "/" + q.lstrip("/") if q.startswith("/") else q
+
+
+def imp_text(form, target):
+    d, _, b = target.rpartition("/")
+    if form == "rel":
+        return "//{./%s}" % target
+    if form == "det":
+        return "//{./%s}" % ((d + "/" if d else "") + "q/../" + b)
+    if form == "dbl":
+        return "//{//%s}" % target.replace("/", "//")
+    return "//{/%s}" % target
+
+
+def spelled_resolve(root, importer_raw, form, target):
+    """raw file name handed to ReadFile/bytesValue (simple names only; cross-checked by the observed opens)"""
+    root_path = root if root else "/"
+    if form in ("rel", "det"):
+        sd = pclean(importer_raw.rpartition("/")[0] + "/")
+        return pclean(sd + "/" + target) + ".arrai"
+    return root_path + "/" + pclean("/" + target).strip("/") + ".arrai"
+
+
+def gen_spelled_cases(rng, tier):
+    """spec = (root, {file (relative to the root, no extension): [(form, target relative to the importer's dir (rel/det) or to the root)]}, main imports)"""
+    specs = []
+    for root in ("", "/m", "/srv/mod"):
+        files = {"x/a": [("rel", "b")], "x/b": [("root", "x/a")],
+                 "y/p": [("rel", "q")], "y/q": [("root", "y/r")], "y/r": [("det", "p")],
+                 "lib/leaf": [], "lib/both": [("rel", "leaf"), ("root", "lib/leaf"), ("dbl", "lib/leaf")]}
+        for m in ([("rel", "x/a")], [("root", "x/a")], [("rel", "x/b")], [("rel", "y/p")], [("root", "y/r")], [("dbl", "x/b")],
+                  [("rel", "lib/both")], [("rel", "lib/both"), ("root", "lib/leaf"), ("det", "lib/leaf")]):
+            specs.append((root, files, m))
+    n = 26 if tier == "quick" else 300
+    dirs = ["x", "x/s", "y"]
+    for _ in range(n):
+        root = rng.choice(["", "", "/m", "/srv/mod", "/r/deep/er"])
+        k = rng.randrange(2, 6)
+        names = ["%s/f%d" % (rng.choice(dirs), i) for i in range(k)]
+        cyc = rng.random() < 0.5
+        files = {}
+        for i, f in enumerate(names):
+            imps = []
+            for _ in range(rng.randrange(0, 3)):
+                j = rng.randrange(k) if cyc else (rng.randrange(i + 1, k) if i + 1 < k else None)
+                if j is None:
+                    continue
+                t = names[j]
+                fd = f.rpartition("/")[0]
+                forms = ["root", "root", "dbl"]
+                if t.startswith(fd + "/"):
+                    forms += ["rel", "rel", "det"]
+                form = rng.choice(forms)
+                imps.append((form, t[len(fd) + 1:] if form in ("rel", "det") else t))
+            files[f] = imps
+        m = []
+        for _ in range(rng.randrange(1, 3)):
+            t = rng.choice(names)
+            m.append((rng.choice(["rel", "root", "det", "dbl"]), t))
+        specs.append((root, files, m))
+    return specs
+
+
+def build_spelled_case(cid, shard, spec, budget):
+    root, files, m = spec
+    main_raw = root + "/main.arrai"
+    exist = {pclean(root + "/" + f + ".arrai"): imps for f, imps in files.items()}
+    names, graph, todo = {}, {}, []
+
+    def key(raw):
+        if raw not in names:
+            names[raw] = len(names) + 1
+            todo.append(raw)
+        return names[raw]
+    main_keys = [key(spelled_resolve(root, main_raw, form, t)) for form, t in m]
+    while todo:
+        raw = todo.pop(0)
+        imps = exist.get(pclean(raw))
+        if imps is not None:
+            graph[names[raw]] = [key(spelled_resolve(root, raw, form, t)) for form, t in imps]
+    text = lambda imps: "1" + "".join(" + " + imp_text(form, t) for form, t in imps)
+    hfiles = {p: text(imps) for p, imps in exist.items()}
+    hfiles[(root if root else "") + "/go.mod"] = "module m"
+    return {"id": cid, "kind": "s", "graph": {str(k): v for k, v in graph.items()}, "main": main_keys, "base": "mem%d" % shard,
+            "names": names, "spec": [root, {f: [list(x) for x in imps] for f, imps in files.items()}, [list(x) for x in m]],
+            "h": {"id": cid, "fs": "mem", "files": hfiles, "main": main_raw, "src": text(m), "budget_ms": budget}}
+
+
 def graph_text(imps):
     return "1" + "".join(" + //{./a%d}" % j for j in imps)
 
@@ -172,7 +273,7 @@ def gen_path_cases(rng, tier):
 
     def rs(maxlen=12):
         return "".join(rng.choice(alpha) for _ in range(rng.randrange(maxlen + 1)))
-    n = 1000 if tier == "quick" else 12000
+    n = 800 if tier == "quick" else 12000
     for _ in range(n):
         fn = rng.choice(list(PFN))
         a, b = rs(), ""
@@ -201,6 +302,18 @@ def gen_path_cases(rng, tier):
 # ---------- helpers ----------
 def bts(s):
     return list(s.encode("utf-8"))
+
+
+def sv(bs):
+    """Coq term for a byte string: a string literal when printable ASCII, else a list of numerals"""
+    bs = list(bs)
+    if USE_STRING_LITERALS and bs and all(32 <= b <= 126 for b in bs):
+        return '(S16 "%s"%%string)' % bytes(bs).decode("ascii").replace('"', '""')
+    return zl(bs)
+
+
+def svl(bss):
+    return "[" + "; ".join(sv(b) for b in bss) + "]"
 
 
 def gomod_dirs(base, files):
@@ -241,17 +354,20 @@ def coq_res_case(c, o):
     stats = [x[1] for x in o.get("opens", []) if x[0] == "stat"]
     opens = [x[1] for x in o.get("opens", []) if x[0] == "open"]
     return ("{| r_id := %d; r_cwd := %s; r_gomods := %s; r_dot := %s; r_name := %s; r_sd := %s; r_stats := %s; r_opens := %s; r_err := %s |}" % (
-        c["id"], zl(bts(c["cwd"])), zll([bts(d) for d in c["gomods"]]), cbool(c["dot"]), zl(bts(c["name_r"])), zl(bts(c["sd"])),
-        zll(stats), zll(opens), cbool(o.get("st") == "err")))
+        c["id"], sv(bts(c["cwd"])), svl([bts(d) for d in c["gomods"]]), cbool(c["dot"]), sv(bts(c["name_r"])), sv(bts(c["sd"])),
+        svl(stats), svl(opens), cbool(o.get("st") == "err")))
 
 
 def coq_graph_case(c, o):
-    cls = {"ok": 0, "err": 1, "timeout": 2}.get(o.get("st"), 3)
+    cls = {"ok": 0, "err": 1, "timeout": 2, "crash": 2}.get(o.get("st"), 3)
     trace = []
     for op, nm in o.get("opens", []):
         if op != "open":
             continue
         s = bytes(nm).decode("utf-8", "replace")
+        if "names" in c:
+            trace.append(c["names"].get(s, -1))
+            continue
         mm = re.fullmatch(r"a(\d+)\.arrai", s)
         trace.append(int(mm.group(1)) if mm else -1)
     g = "[" + "; ".join("(%s, %s)" % (k, zl(v)) for k, v in sorted(c["graph"].items(), key=lambda kv: int(kv[0]))) + "]"
@@ -286,7 +402,8 @@ def coq_reports(run, name, header, records, expr, shard=150):
 
     def do(ic):
         i, chunk = ic
-        body = ["From Coq Require Import List ZArith Bool. Import ListNotations. Open Scope Z_scope.",
+        body = ["From Coq Require Import String.",
+                "From Coq Require Import List ZArith Bool. Import ListNotations. Open Scope Z_scope.",
                 "From Arrai Require Import Sys.GoPath Sys.Import Sys.ImportCache Check.C16Check.",
                 "Definition cases : list %s := [" % header, ";\n".join(chunk), "].",
                 "Definition R := Eval vm_compute in %s." % expr, "Print R."]
@@ -319,10 +436,18 @@ def main(tier, seed, replay=None):
     open_sigs = {f["sig"] for f in run.opened}
     qcur = qcur_term(open_sigs)
     hang_cur = cbool("q_import_cycle_hangs" in open_sigs)
-    work = os.path.join(workdir(), "c16fs")
+    import tempfile
+    work = tempfile.mkdtemp(prefix="c16-", dir="/var/tmp")      # short absolute names keep the Coq case files small
+    try:
+        return main_in(run, vh, proof, open_sigs, qcur, hang_cur, work, tier, seed, replay)
+    finally:
+        shutil.rmtree(work, ignore_errors=True)
+
+
+def main_in(run, vh, proof, open_sigs, qcur, hang_cur, work, tier, seed, replay):
     bases = [os.path.join(work, "s%d" % i) for i in range(NSHARD)]
     seeds = [seed] if tier == "quick" else [seed, seed + 1000, seed + 2000]
-    rspecs, gspecs, pspecs = [], [], []
+    rspecs, gspecs, pspecs, sspecs = [], [], [], []
     if replay:
         rp = json.load(open(replay))
         c = rp.get("case", {})
@@ -330,6 +455,9 @@ def main(tier, seed, replay=None):
             rspecs = [(c["layout"], c["site"], c["dot"], c["name"])]
         elif c.get("kind") == "g":
             gspecs = [({int(k): v for k, v in c["graph"].items()}, c["main"])]
+        elif c.get("kind") == "s":
+            r0, f0, m0 = c["spec"]
+            sspecs = [(r0, {f: [tuple(x) for x in imps] for f, imps in f0.items()}, [tuple(x) for x in m0])]
         elif c.get("kind") == "p":
             pspecs = [(c["fn"], c["a"], c["b"])]
     else:
@@ -337,6 +465,7 @@ def main(tier, seed, replay=None):
             rng = random.Random(sd)
             rspecs += gen_res_cases(rng, tier if i == 0 else "quick")
             gspecs += gen_graph_cases(rng, tier if i == 0 else "quick")
+            sspecs += gen_spelled_cases(rng, tier if i == 0 else "quick")
             pspecs += gen_path_cases(rng, tier if i == 0 else "quick")
     # --- resolution stream (sorted by layout within a shard so the harness re-uses the tree)
     rspecs_sorted = sorted(enumerate(rspecs), key=lambda p: (p[1][0], p[0]))
@@ -345,15 +474,19 @@ def main(tier, seed, replay=None):
         rcases.append(build_res_case(i, bases[j * NSHARD // max(1, len(rspecs_sorted))], spec))
     budget = 1500 if tier == "quick" else 2000
     gcases = [build_graph_case(100000 + i, bases[i % NSHARD], spec, budget) for i, spec in enumerate(gspecs)]
+    gcases += [build_spelled_case(150000 + i, i % 2, spec, budget) for i, spec in enumerate(sspecs)]
     outs = harness_sharded(vh, rcases) if rcases else {}
     gouts = harness_sharded(vh, gcases) if gcases else {}
-    # a missing answer is only believed after a second, longer look (load on the machine)
-    for c in gcases:
-        o = gouts.get(c["id"])
-        if o is not None and o.get("st") == "timeout" and "q_import_cycle_hangs" not in open_sigs:
-            h2 = dict(c["h"], budget_ms=15000)
-            o2, _, _ = run_harness(vh, "c16", [h2], timeout=60)
-            gouts[c["id"]] = o2.get(c["id"], o)
+    # a missing answer is only believed after a second, longer look (load on the machine; the first
+    # import of a non-.arrai file compiles the implicit decoder, which can take seconds on a busy host)
+    for cs, os_, long_ms in ((gcases, gouts, 20000), (rcases, outs, 60000)):
+        again = [c for c in cs if (os_.get(c["id"]) or {}).get("st") in (None, "timeout", "crash")
+                 and not (c["kind"] != "r" and "q_import_cycle_hangs" in open_sigs)]
+        for c in again[:12]:
+            h2 = dict(c["h"], budget_ms=long_ms)
+            o2, _, _ = run_harness(vh, "c16", [h2], timeout=long_ms // 1000 + 60, stall=long_ms // 1000 + 30)
+            if o2.get(c["id"]):
+                os_[c["id"]] = o2[c["id"]]
     log("c16: harness done at %.1fs" % (time.time() - run.t0))
     byid = {c["id"]: c for c in rcases + gcases}
     harness_bad = [c["id"] for c in rcases + gcases if (outs.get(c["id"]) or gouts.get(c["id"]) or {}).get("st") in (None, "harness-error")]
@@ -362,7 +495,7 @@ def main(tier, seed, replay=None):
                                 "example": outs.get(harness_bad[0]) or gouts.get(harness_bad[0])})
     rrecs = [coq_res_case(c, outs[c["id"]]) for c in rcases if outs.get(c["id"], {}).get("st") in ("ok", "err")]
     rres = coq_reports(run, "c16r", "case16r", rrecs, "report_r (%s) cases" % qcur) if rrecs else {}
-    grecs = [coq_graph_case(c, gouts[c["id"]]) for c in gcases if gouts.get(c["id"], {}).get("st") in ("ok", "err", "timeout", "panic")]
+    grecs = [coq_graph_case(c, gouts[c["id"]]) for c in gcases if gouts.get(c["id"], {}).get("st") in ("ok", "err", "timeout", "panic", "crash")]
     gres = coq_reports(run, "c16g", "case16g", grecs, "report_g %s cases" % hang_cur) if grecs else {}
     log("c16: coq r+g done at %.1fs" % (time.time() - run.t0))
     # --- GoPath stream
@@ -379,7 +512,7 @@ def main(tier, seed, replay=None):
             r = [49] if r else [48]
         elif c["fn"] == "hasprefix":
             r = [49] if r == [49] else [48]
-        precs.append("{| p_id := %d; p_fn := %s; p_a := %s; p_b := %s; p_r := %s |}" % (c["id"], PFN[c["fn"]], zl(c["a"]), zl(c["b"]), zl(r)))
+        precs.append("{| p_id := %d; p_fn := %s; p_a := %s; p_b := %s; p_r := %s |}" % (c["id"], PFN[c["fn"]], sv(c["a"]), sv(c["b"]), sv(r)))
     pres = coq_reports(run, "c16p", "case16p", precs, "report_p cases", shard=600) if precs else {}
     pby = {c["id"]: c for c in pcases}
     for cid, code in sorted(pres.items()):
@@ -409,7 +542,7 @@ def main(tier, seed, replay=None):
         rec = {"case": {"kind": "r", "layout": c["layout"], "site": c["site"], "dot": c["dot"], "name": c["name"],
                         "src": c["h"]["src"], "cwd": c["cwd"], "main": c["h"]["main"], "source_dir": c["sd"]},
                "observed": show(o)}
-        if o.get("st") in ("panic", "timeout"):
+        if o.get("st") in ("panic", "timeout", "crash"):
             rec["oracle"] = "a local import must give a value or an error"
             run.classify_failure(None, rec)
         elif code == 1:
@@ -439,8 +572,10 @@ def main(tier, seed, replay=None):
             seen.add(key)
             if len(c["graph"]) >= 2:
                 dist += 1
-        rec = {"case": {"kind": "g", "graph": c["graph"], "main": c["main"], "files": c["h"]["files"], "src": c["h"]["src"]},
+        rec = {"case": {"kind": c["kind"], "graph": c["graph"], "main": c["main"], "files": c["h"]["files"], "src": c["h"]["src"]},
                "observed": show(o)}
+        if c["kind"] == "s":
+            rec["case"].update({"spec": c["spec"], "main_path": c["h"]["main"], "fs": "memory", "keys": c["names"]})
         if o.get("st") == "panic" or code == 1:
             rec["oracle"] = "evaluation must answer; value iff the import graph reachable from the main script is acyclic and complete, error otherwise (Properties/C16.v C16_cycles_fail_fast, C16_success_means_acyclic)"
             run.classify_failure(None, rec)
@@ -463,12 +598,13 @@ def main(tier, seed, replay=None):
                 "with texts from a grammar of '.', '..', blanks/tabs/newlines, backslashes, %%2e, doubled separators and absolute-looking forms "
                 "(45%% spellings of existing files); each evaluated by syntax.EvaluateExpr on a recording afero fs over a real temp tree and by "
                 "the Coq model (vm_compute), comparing Stat calls, opened names and error class; graph cases = files importing each other "
-                "(DAGs, self-import, 2/3-cycles, missing files) under a wall-clock bound; gopath cases = Go path/strings functions vs Sys/GoPath.v. "
+                "(DAGs, self-import, 2/3-cycles, missing files) under a wall-clock bound, plus graphs on a memory fs whose module root is '/', '/m', ... and whose edges mix ./, ./q/../, / and // spellings of one file (keys = raw file names, as the cache and the cycle check see them); gopath cases = Go path/strings functions vs Sys/GoPath.v. "
                 "distinct by (layout, site, form, text) resp. graph; non-trivial = a file was opened resp. graph has >= 2 files" % len(SITES)
                 + ("; thorough adds every name of <= 3 segments over 7 segment kinds x 2 forms x 2 sites and all strings <= 6 over '/.a ' for clean/strip/dir/ext" if tier == "thorough" else ""),
         "samples": [c["h"]["src"] for c in rcases[:: max(1, len(rcases) // 8)]][:8],
         "histograms": hist,
-        "streams": {"resolution": len(rcases), "graphs": len(gcases), "gopath": len(pcases)},
+        "streams": {"resolution": len(rcases), "graphs": len([c for c in gcases if c["kind"] == "g"]),
+                    "spelled_graphs_memfs": len([c for c in gcases if c["kind"] == "s"]), "gopath": len(pcases)},
         "quirks_current": sorted(open_sigs),
         "exhaustive": False,
     })
